@@ -65,8 +65,9 @@ def run(ctx):
         if mut.ok or mut.violated != "MutantInv":
             raise vlib.Infra("spec mutant ~M_DepthBuffersDisjoint was not rejected by TLC (%s)\n%s" %
                              (mut.violated, mut.out[-1500:]))
-        ctx.tlc_expect_ok("FieldSelect", "FieldSelect_mutant_sharedbuf.cfg", timeout=600, deadlock=False, count=False,
-                          overrides={"M_DepthBuffersDisjoint": "TRUE"}, name="same scope, buffers disjoint (must pass)")
+        if ctx.tier == "thorough":
+            ctx.tlc_expect_ok("FieldSelect", "FieldSelect_mutant_sharedbuf.cfg", timeout=600, deadlock=False, count=False,
+                              overrides={"M_DepthBuffersDisjoint": "TRUE"}, name="same scope, buffers disjoint (must pass)")
         mk = ctx.tlc("FieldSelect", "FieldSelect_mutant_kinds.cfg", timeout=600, deadlock=False,
                      name="mutant only regular events filtered (must be rejected)")
         if mk.ok or mk.violated != "MutantKindInv":
